@@ -342,6 +342,87 @@ Proof.
   destruct (snd (trunc L)); inversion H; subst; discriminate.
 Qed.
 
+(* ---------- principals_allowed_by_permission on malformed input *)
+Lemma pa_scan_x_some p a : forall al ah dh r,
+  pa_scan_x p a al ah dh = Some r -> pa_scan p (fst (trunc_acl a)) al ah dh = r.
+Proof.
+  induction a as [|[e|] t IH]; intros al ah dh r H; simpl in *; try (inversion H; reflexivity); try discriminate.
+  destruct (trunc_acl t) as [g b] eqn:E. simpl in *.
+  destruct (act e); destruct (perm_in p (what e)); simpl in *; try (apply IH; exact H).
+  - destruct (negb (mem_text (who e) dh)); apply IH; exact H.
+  - destruct (text_eqb (who e) everyone); [inversion H; reflexivity|apply IH; exact H].
+Qed.
+
+Lemma fold_pa_step_x_none p l : fold_left (pa_step_x p) l None = None.
+Proof. induction l as [|x l IH]; simpl; [reflexivity|exact IH]. Qed.
+
+Lemma pa_x_fold p l : forall acc A,
+  fold_left (pa_step_x p) l (Some acc) = Some A ->
+  fold_left (pa_step p) (map (fun l => match l with XAcl a => Some (fst (trunc_acl a)) | _ => None end) l) acc = A
+  /\ ~ In XAclNone l.
+Proof.
+  induction l as [|x l IH]; intros acc A H; simpl in *.
+  - inversion H. auto.
+  - destruct x as [| |a]; simpl in H.
+    + destruct (IH _ _ H) as [H1 H2]. split; [exact H1|]. intros [E|E]; [discriminate|auto].
+    + rewrite fold_pa_step_x_none in H. discriminate.
+    + destruct (pa_scan_x p a acc [] []) as [[al ah]|] eqn:E; [|rewrite fold_pa_step_x_none in H; discriminate].
+      apply pa_scan_x_some in E. destruct (IH _ _ H) as [H1 H2]. split.
+      * unfold pa_step at 2. rewrite E. exact H1.
+      * intros [E'|E']; [discriminate|auto].
+Qed.
+
+(* whenever a set is returned it is the set of the lineage with every ACL cut before its first malformed ACE (so the
+   exact description and the consistency theorem apply to it), and no location had __acl__ = None *)
+Theorem principals_allowed_x_some L p A :
+  principals_allowed_x L p = Some A -> A = principals_allowed (strip L) p /\ ~ In XAclNone L.
+Proof.
+  unfold principals_allowed_x, principals_allowed, strip. intros H.
+  apply pa_x_fold in H. destruct H as [H1 H2]. rewrite <- map_rev. split; [symmetry; exact H1|].
+  intros Hin. apply H2. apply in_rev in Hin. exact Hin.
+Qed.
+
+Lemma pa_scan_x_embed p a : forall al ah dh, pa_scan_x p (map XGood a) al ah dh = Some (pa_scan p a al ah dh).
+Proof.
+  induction a as [|e t IH]; intros al ah dh; simpl; [reflexivity|].
+  destruct (act e); destruct (perm_in p (what e)); simpl; try apply IH.
+  - destruct (negb (mem_text (who e) dh)); apply IH.
+  - destruct (text_eqb (who e) everyone); [reflexivity|apply IH].
+Qed.
+
+Theorem principals_allowed_x_conservative L p : principals_allowed_x (embed L) p = Some (principals_allowed L p).
+Proof.
+  unfold principals_allowed_x, principals_allowed.
+  assert (H : forall l acc, fold_left (pa_step_x p) (rev (embed l)) (Some acc)
+                            = Some (fold_left (pa_step p) (rev l) acc)).
+  { induction l as [|[a|] l IH]; intros acc; simpl; [reflexivity| |].
+    - rewrite !fold_left_app, IH. simpl. rewrite pa_scan_x_embed.
+      destruct (pa_scan p a (fold_left (pa_step p) (rev l) acc) [] []); reflexivity.
+    - rewrite !fold_left_app, IH. reflexivity. }
+  apply H.
+Qed.
+
+(* the same, against the REGENERATED programs: what permits() / principals_allowed_by_permission answer on malformed input
+   is what the regenerated loops answer on the well-formed part, or an exception *)
+Theorem permits_x_generated L ps p :
+  permits_x L ps p =
+  match gen_permits (fst (trunc L)) ps p with
+  | DefaultDeny => if snd (trunc L) then XRaised else XDec DefaultDeny
+  | dd => XDec dd
+  end.
+Proof. rewrite gen_permits_is_model. unfold permits_x, permits. apply permits_x_trunc. Qed.
+
+Theorem principals_allowed_x_generated L p A :
+  principals_allowed_x L p = Some A -> A = gen_principals_allowed (strip L) p.
+Proof. intros H. rewrite gen_principals_allowed_is_model. apply (principals_allowed_x_some L p A H). Qed.
+
+Example principals_allowed_x_nonvacuous :
+  let a := [97]%N in let v := [118]%N in
+  principals_allowed_x [XAcl [XGood (mkAce Allow a (PStr v))]; XAclNone] v = None
+  /\ principals_allowed_x [XAcl [XGood (mkAce Deny everyone PAll); XBad]; XAcl [XGood (mkAce Allow a (PStr v))]] v = Some []
+  /\ principals_allowed_x [XAcl [XGood (mkAce Allow a (PStr v)); XBad]] v = None.
+Proof. vm_compute. repeat split. Qed.
+
 Example permits_x_nonvacuous :
   let a := [97]%N in let v := [118]%N in
   permits_x [XAcl [XGood (mkAce Allow a (PStr v)); XBad]; XAclNone] [a] v = XDec (Allowed 0 0)
